@@ -69,6 +69,16 @@ def peek(start, n=PEEK):
     return [float(x).hex() for x in rs.standard_normal(n)]
 
 
+from quantum_gates._gates.gates import NoiseFreeGates as _NoiseFreeGates
+
+
+class SampledReadout(_NoiseFreeGates):
+    """a user-defined gate set (module level: picklable): ideal gates, sampled read-out error"""
+    def bitflip(self, tm, rout):
+        from quantum_gates._gates.gates import standard_gates
+        return standard_gates.bitflip(tm, rout)
+
+
 class SpyCircuit(BinaryCircuit):
     _next_index = 0           # parent side: number of instances built since the last reset
 
@@ -77,6 +87,12 @@ class SpyCircuit(BinaryCircuit):
         self.c09_index = SpyCircuit._next_index
         SpyCircuit._next_index += 1
         self.c09_begin = None
+        self.c09_gates = []
+
+    def apply(self, gate, *a, **kw):
+        import hashlib
+        self.c09_gates.append(hashlib.sha1(np.ascontiguousarray(np.asarray(gate, dtype=complex)).tobytes()).hexdigest()[:16])
+        return BinaryCircuit.apply(self, gate, *a, **kw)
 
     def _c09_mark_begin(self):
         if self.c09_begin is None:
@@ -95,7 +111,8 @@ class SpyCircuit(BinaryCircuit):
         end_d = state_digest(end)
         rec = {"shot": self.c09_index, "pid": pid, "pid_end": os.getpid(), "t_begin": t0, "t_end": t1,
                "start": state_digest(start), "end": end_d, "len": gauss_steps(start, end_d),
-               "peek": peek(start), "probs": [float(x).hex() for x in np.square(np.absolute(psi))]}
+               "peek": peek(start), "probs": [float(x).hex() for x in np.square(np.absolute(psi))],
+               "gates": list(self.c09_gates)}
         d = os.environ.get(TRACE_ENV)
         if d:
             name = f"shot-{self.c09_index}-{pid}-{t1}"
@@ -175,7 +192,17 @@ def run_case(case):
     SpyCircuit._next_index = 0
     psi0 = np.zeros(2 ** nq)
     psi0[0] = 1.0
-    sim = MrAndersonSimulator(gates=standard_gates, CircuitClass=SpyCircuit, parallel=(case["mode"] == "par"))
+    gates = standard_gates
+    if case.get("gates") == "noisefree-with-sampled-readout":
+        # a user-defined gate set: ideal gates, but the read-out error is sampled (derived from the noise-free gate set)
+        gates = SampledReadout()
+    if case.get("prewarm"):
+        # the gate set has been sampled from directly before the run (as in a notebook session)
+        np.random.seed(case["seed"] ^ 0x5bd1)
+        for _ in range(case["prewarm"]):
+            standard_gates.X(0.3, 1e-3, 1e-4, 5e-5)
+            standard_gates.SX(0.1, 1e-3, 1e-4, 5e-5)
+    sim = MrAndersonSimulator(gates=gates, CircuitClass=SpyCircuit, parallel=(case["mode"] == "par"))
     np.random.seed(case["seed"])
     pre = state_digest()
     buf = io.StringIO()
